@@ -49,6 +49,8 @@ class Style:
             if self.chance(0.03):
                 return '\\u{%x}' % b
             return chr(b)
+        if (b < 0x20 or b == 0x7f) and b not in (0x0a, 0x0d) and self.chance(0.2):
+            return chr(b)       # a raw control character (TAB included) is legal inside a literal
         if b in NAMED and not self.chance(0.3):
             return NAMED[b]
         return ('\\x%02X' if self.chance(0.5) else '\\x%02x') % b
